@@ -237,7 +237,7 @@ class VQueue(object):
         pass
 
 
-PIPE_CAP = 8      # messages a virtual pipe holds before send() blocks
+PIPE_CAP = 4      # messages a virtual pipe holds before send() blocks
 
 
 class VConn(object):
